@@ -91,3 +91,26 @@ contract(MI, "DatasetIteration.as_numpy_iterator_concurrent",
         "not FAILS(COMMON(self, split, shards, custom_metadata_type_limit, shard_filter, repeat, shuffle))",
         "not failed()", "not FAILS(outs)",
     ])})
+
+_AS_PARAMS = {k: v for k, v in _IT_PARAMS.items() if k != "custom_metadata_type_limit"}
+contract(MI, "DatasetIteration.as_numpy_iterator_async",
+    props=["C02", "C03", "C12", "C19", "C07", "C14"],
+    params=_AS_PARAMS, generator=True, stream_out=True, defs=_SEL_DEFS,
+    modifies=["IterateShardBase.dataset_structure", "IterateShardBase.process_record"],
+    requires=[r for r in _IT_REQ if "custom_metadata_type_limit" not in r] + ["KNOWN_TYPE(self)", "file_parallelism >= 1"],
+    ensures=[
+        ("C19", "not repeat"),
+        (["C03", "C12"], "implies(shuffle == 0, outs == CANON(self, split, process_record, shards, None, shard_filter))"),
+        (["C02", "C12"], "MSS(outs) == MSS(CANON(self, split, process_record, shards, None, shard_filter))"),
+        ("C07", "not failed()"),
+    ],
+    raises={"ValueError": ["True"], "Foreign": ["True"]},
+    loops={1: Loop(inv=[
+        # everything yielded so far is the prefix of the composed stream (C03; C19 for repeat)
+        (["C03", "C19", "C02"], "outs == OFSEQ(TAKES(forstream(), _k))"),
+        "_k >= 0", "not failed()",
+        (["C12", "C19"], "implies(shuffle == 0, forstream() == ite_stream(repeat, CANONCYC(self, split, process_record, shards, None, shard_filter), CANON(self, split, process_record, shards, None, shard_filter)))"),
+        (["C12", "C02"], "implies(shuffle != 0, forstream() == MAPOPT(process_record, RRS(MAPS(RDOF(self), COMMON(self, split, shards, None, shard_filter, repeat, shuffle)), file_parallelism)))"),
+        "implies(repeat, not FIN(forstream()))",
+        "implies(not repeat, FIN(forstream()))",
+    ])})
